@@ -174,18 +174,19 @@ _ENTRY = LLUDPMessageLogEntry(Message("ChatFromViewer", Block("ChatData", Messag
 
 
 STRS = ["", "a", "ab", "01", "b"]
+BYTS = [b"", b"a", b"\xff"]
 
 
-@harness(pre=["0 <= op <= 9", "0 <= vt <= 6", "0 <= et <= 4", "0 <= vs <= 4", "0 <= es <= 4", "len(vb) <= 1", "len(eb) <= 1",
+@harness(pre=["0 <= op <= 9", "0 <= vt <= 6", "0 <= et <= 4", "0 <= vs <= 4", "0 <= es <= 4", "0 <= vb <= 2", "0 <= eb <= 2",
               "(-2 <= vi) & (vi <= 3) & (-2 <= ei) & (ei <= 3)"], post="_", timeout=400,
          note="operator x field-type x literal-type matrix (10 operators; field: int / str / bytes / None / tuple / Vector3 / "
               "UUID; literal: int / str / bytes / None / tuple; symbolic ints in [-2,3] and <=1-byte bytes (operands of & / ordering are realized), strs from a 5-entry catalogue since CrossHair's ordering of symbolic strs is inexact) through the real "
               "_val_matches: never raises, and is truthy exactly when the comparison holds under Python semantics (an "
               "inapplicable comparison is simply false)", covers=(_L + "AbstractMessageLogEntry._val_matches",))
-def val_matches_matrix(op: int, vt: int, vi: int, vs: int, vb: bytes, et: int, ei: int, es: int, eb: bytes) -> bool:
+def val_matches_matrix(op: int, vt: int, vi: int, vs: int, vb: int, et: int, ei: int, es: int, eb: int) -> bool:
     op, vt, et = OPS[small(op, 0, 9)], small(vt, 0, 6), small(et, 0, 4)
-    val = pick_value(vt, vi, STRS[small(vs, 0, 4)], vb)
-    expected = pick_value(et, ei, STRS[small(es, 0, 4)], eb)
+    val = pick_value(vt, vi, STRS[small(vs, 0, 4)], BYTS[small(vb, 0, 2)])
+    expected = pick_value(et, ei, STRS[small(es, 0, 4)], BYTS[small(eb, 0, 2)])
     got = _ENTRY._val_matches(op, val, LiteralValue(expected))
     norm_val = val if isinstance(val, (int, float, bytes, str, type(None), tuple, Vector3)) else str(val)
     return bool(got) == py_semantics(op, norm_val, expected)
